@@ -1,3 +1,4 @@
+mod codec;
 mod engine;
 mod fq;
 mod refcodec;
@@ -67,11 +68,44 @@ fn cmd_fq(args: &[String]) {
     );
 }
 
+fn cmd_c01(args: &[String]) {
+    let inp = arg(args, "--in").expect("--in");
+    let out = arg(args, "--out").expect("--out");
+    let seed: u64 = arg(args, "--seed").and_then(|s| s.parse().ok()).unwrap_or(1);
+    let n: usize = arg(args, "--random").and_then(|s| s.parse().ok()).unwrap_or(100);
+    let vectors = read_ndjson(&inp);
+    engine::install_panic_hook();
+    let rt = tokio::runtime::Builder::new_current_thread().enable_all().build().unwrap();
+    let evs = rt.block_on(codec::c01(&vectors, seed, n));
+    write_ndjson(&out, &evs);
+    let noncanon = evs.iter().filter(|e| e.get("canonical").and_then(|c| c.as_bool()) == Some(false)).count();
+    println!("{}", serde_json::json!({"events": evs.len(), "vectors": vectors.len(), "non_canonical": noncanon}));
+}
+
+fn cmd_c02(args: &[String]) {
+    let inp = arg(args, "--in").expect("--in");
+    let out = arg(args, "--out").expect("--out");
+    let seed: u64 = arg(args, "--seed").and_then(|s| s.parse().ok()).unwrap_or(1);
+    let n: usize = arg(args, "--random").and_then(|s| s.parse().ok()).unwrap_or(10);
+    let max_exh: usize = arg(args, "--max-exh").and_then(|s| s.parse().ok()).unwrap_or(12);
+    let vectors = read_ndjson(&inp);
+    engine::install_panic_hook();
+    let evs = codec::c02(&vectors, seed, max_exh, n);
+    let mut evs2 = evs.clone();
+    for e in evs2.iter_mut() {
+        engine::sanitize(e);
+    }
+    write_ndjson(&out, &evs2);
+    println!("{}", serde_json::json!({"streams": evs.len(), "partitions": evs.iter().map(|e| e["partitions"].as_u64().unwrap_or(0)).sum::<u64>()}));
+}
+
 fn main() {
     let args: Vec<String> = std::env::args().collect();
     match args.get(1).map(|s| s.as_str()) {
         Some("run") => cmd_run(&args),
         Some("fq") => cmd_fq(&args),
+        Some("c01") => cmd_c01(&args),
+        Some("c02") => cmd_c02(&args),
         _ => {
             eprintln!("usage: zv run --in scripts.ndjson --out trace.ndjson");
             std::process::exit(2);
